@@ -27,10 +27,11 @@ Definition boxfrees (w : world) : list N :=
 Definition ctx_obs (w : world) : list bool :=
   flat_map (fun x => match x with VCtxObs _ n => [n] | _ => [] end) (w_trace w).
 
-(** Events that are neither the destruction of a body future nor about the task box. *)
+(** Events that are neither the destruction of a body future, nor about the task box, nor a body's
+    observation of the context slot. *)
 Definition quiet (x : tev) : bool :=
   match x with
-  | VEnd _ _ | VBoxNew _ | VBoxFree _ => false
+  | VEnd _ _ | VBoxNew _ | VBoxFree _ | VCtxObs _ _ => false
   | _ => true
   end.
 
